@@ -465,6 +465,17 @@ def check(facts, rep, tier, cfg):
                         "this connection is served on `%s`, but the task spawned after the 101 answer downcasts the upgraded connection to %s: for "
                         "connections served here a fully valid, authenticated upgrade request is answered 101 and then no tunnel is started" % (
                             ty[:160], sorted(x[:160] for x in want_types) or "nothing"))
+        for b in crate_.bodies:
+            if "/server/" not in b.file or "::tests::" in b.path:
+                continue
+            for bi, t in b.calls():
+                c = callee(t)
+                if c and c["name"] == "pipeline_flush" and "hyper" in c["path"]:
+                    fl = const_eval(Tracer(facts, b).operand(t["args"][1])) if len(t["args"]) > 1 else None
+                    if fl is None or fl:
+                        rep.bad("C14.R5", "no-pipeline-flush", "%s (%s)" % (loc_str(t["loc"]), b.path),
+                                "`pipeline_flush(true)` on the server's connections: the 101 head is still unflushed when hyper hands the socket "
+                                "to the tunnel if the client sent bytes right behind its request, and is dropped")
         rep.floor("C14.R5", "serve_connection_with_upgrades calls of the tunnel service", len(served), 1)
         rep.floor("C14.R5", "downcasts of the upgraded connection", len(want_types), 1)
     rep.rule("C14.S7", "no new process-wide mutable state (static cell / lock / once-cell) in the files this property is anchored in")
